@@ -141,6 +141,15 @@ def _one(item):
     except Exception as e:
         half_sized_diode = spec[0] == "Diode" and (("w" in spec[1]) != ("l" in spec[1]))  # area needs both: refusing is a fair answer
         if exp[0] in ("error", "either") or half_sized_diode:
+            # a request that was refused is refused again when it is made a second time in the same process
+            try:
+                again, _m = hierarchy(h, spec)
+                mod.compile(again)
+                left = [n for n, i in again.instances.items() if n in ("d", "d2") and not hasattr(i.of, "prim")]
+                if left:
+                    return ("bad", f"a request refused a moment ago ({type(e).__name__}) is accepted when made again in the same process: {str(again.instances[left[0]].of)[:80]}")
+            except Exception:
+                pass
             if descriptive(e):
                 return ("ok", "error")
             return ("bad", f"no device satisfies the request, but the error is not descriptive: {type(e).__name__}: {str(e)[:80]!r}")
